@@ -278,6 +278,16 @@ def check(pid, tier, regen=False):
                          "keys": {"K": jobs[jix]["al"]["K"], "A": jobs[jix]["al"]["A"], "V": jobs[jix]["al"]["V"]},
                          "returned": so["occ"][so["ret"] - 1] if so["ret"] else None, "observation": so,
                          "predicted_by_as_coded_model": explained, "sig": s})
+    # the store across processes: an expression that arrives by unpickling (same process after collection, fresh
+    # processes under PYTHONHASHSEED 0 / 1 / random) enters the store under the key THIS process computes, so building
+    # an equal leaf again returns that very object (clause rebuild-identity of TracePickle.tla)
+    pj2 = [{"n": 30 if tier == "quick" else 300, "seed": seed * 100 + 70 + k} for k in range(4)]
+    pbad, pstats = C.pipeline("w_pickle", pj2, "TracePickle.tla")
+    n_xp = C.merge_stats(pstats)["events"]
+    for _, ev, clause, _x in pbad:
+        if clause in ("rebuild-identity", "identity"):
+            R.add_violation({"property": pid, "clause": "unpickle-" + clause, "mode": ev.get("mode"), "original": ev["w"],
+                             "roundtrip": ev["r"]})
     if regen:
         name = f"{pid}-exact.txt" if tier == "quick" else f"{pid}-exact-thorough.txt"
         with open(os.path.join(C.VERIF, "findings", name), "w") as f:
@@ -300,6 +310,7 @@ def check(pid, tier, regen=False):
         "states": sum(m["states"] for m in spec.values()),
         "transitions": sum(m["generated"] for m in spec.values()),
         "traces_validated_against_impl": n_traces,
+        "unpickle_roundtrips_validated": n_xp,
         "samples": st["samples"],
         "per_alphabet": {f: {"states": spec[f]["states"], "transitions": spec[f]["generated"], "depth": spec[f]["depth"],
                              "as_coded_states": coded[f]["states"], "as_coded_transitions": coded[f]["generated"],
